@@ -53,6 +53,17 @@ def _chain_locals(b, op, through_calls=True, depth=0, seen=None):
     return seen
 
 
+def chain_calls(b, op):
+    """(locals on the provenance chain of the operand, callee paths of the calls that define them)"""
+    chain = _chain_locals(b, op)
+    names = set()
+    for l in chain:
+        for kind, d in _defs(b, l):
+            if kind == "c":
+                names.add(str(d["callee"].get("path") or ""))
+    return chain, names
+
+
 def reordered(b, op):
     """names of the in-place reordering calls applied, anywhere in the body, to a collection that the operand's value was made from:
     the call's receiver borrows (directly, through re-borrows only) a local on the operand's provenance chain. A sort of a copy does not
